@@ -45,6 +45,12 @@ pub struct Net {
     pub accepts: u64,
     pub accept_polls: u64,
     pub log: Vec<String>,
+    /// the server runs its own accept loop over the `tokio::net::TcpListener`
+    /// stand-in (then accept errors can be injected: they are the server's to handle)
+    pub manual_accept: bool,
+    /// errors to hand to the next accept() calls
+    pub accept_errors: VecDeque<i32>,
+    pub accept_errors_fired: u64,
 }
 
 pub type NetRef = Arc<Mutex<Net>>;
@@ -159,20 +165,37 @@ pub struct SimIncoming {
     pub net: NetRef,
 }
 
+/// Shared by hyper's `Accept` and the `TcpListener` stand-in.
+pub fn poll_accept_raw(net: &NetRef, cx: &mut Context<'_>) -> Poll<io::Result<SimStream>> {
+    let mut n = net.lock().unwrap();
+    n.accept_polls += 1;
+    if n.manual_accept {
+        if let Some(e) = n.accept_errors.pop_front() {
+            n.accept_errors_fired += 1;
+            n.ev(format!("accept -> errno {}", e));
+            // a real listener is level-triggered: the caller may call again at once
+            cx.waker().wake_by_ref();
+            return Poll::Ready(Err(io::Error::from_raw_os_error(e)));
+        }
+    }
+    if let Some(s) = n.accept_q.pop_front() {
+        n.accepts += 1;
+        let id = s.st.lock().unwrap().id;
+        n.ev(format!("accept c{}", id));
+        return Poll::Ready(Ok(s));
+    }
+    n.accept_waker = Some(cx.waker().clone());
+    Poll::Pending
+}
+
 impl hyper::server::accept::Accept for SimIncoming {
     type Conn = SimStream;
     type Error = io::Error;
 
     fn poll_accept(self: Pin<&mut Self>, cx: &mut Context<'_>) -> Poll<Option<Result<Self::Conn, Self::Error>>> {
-        let mut n = self.net.lock().unwrap();
-        n.accept_polls += 1;
-        if let Some(s) = n.accept_q.pop_front() {
-            n.accepts += 1;
-            let id = s.st.lock().unwrap().id;
-            n.ev(format!("accept c{}", id));
-            return Poll::Ready(Some(Ok(s)));
+        match poll_accept_raw(&self.net, cx) {
+            Poll::Pending => Poll::Pending,
+            Poll::Ready(r) => Poll::Ready(Some(r)),
         }
-        n.accept_waker = Some(cx.waker().clone());
-        Poll::Pending
     }
 }
